@@ -28,7 +28,7 @@ ASSUMPTIONS = [
   "worlds whose forward residual exceeds 1e-2 x scale (solver not converged) or whose reference has a degenerate row (efc_D > 1e10) are skipped and counted",
   "discrete mode only for Euler and implicitfast (the others raise NotImplementedError by design)",
 ]
-BUDGET = {"quick": dict(examples=480, seconds=150, workers=16), "thorough": dict(examples=12000, seconds=1500, workers=16)}
+BUDGET = {"quick": dict(examples=480, seconds=420, workers=16), "thorough": dict(examples=12000, seconds=1500, workers=16)}
 _CAP = int(OT.NEFC | OT.NJMAX_NNZ | OT.BROADPHASE | OT.NARROWPHASE | OT.CCD | OT.NVMAX | OT.HFIELD | OT.EPA_HORIZON | OT.CONTACT_MATCH)
 
 
